@@ -29,7 +29,7 @@ BOOLOP_COQ = ["BoAnd", "BoOr"]
 # EOther kinds: 0 lambda (child: body), 1 set display, 2 dict display (children: keys then values),
 # 3 f-string (children: the formatted values), 4 slice lower:upper, 5 string constant (no children)
 OTHER_STMTS = ["del v0", "assert v0", "raise v0", "import math", "global g0", "try:\n    pass\nfinally:\n    pass",
-               "class C0:\n    pass", "match v0:\n    case _:\n        pass", "type T0 = int"]
+               "class C0:\n    pass", "match v0:\n    case _:\n        pass", "async def h0():\n    pass"]
 ATTR_SPECIAL = {"is_some": 900, "unwrap_nothing": 901, "unwrap": 902}
 ATTR_SPECIAL_INV = {v: k for k, v in ATTR_SPECIAL.items()}
 
